@@ -72,6 +72,39 @@ def run(ctx, config='rel-all'):
             others = sorted({(t['callee'].get('trait') or '?').split('::')[-1] + '::' + (t['callee'].get('name') or '?') for t in calls})
             ctx.violation('R2', fn, 'forward-target', '%s (impl of %s) must forward to the same-named method of the same trait on the boxed value; it calls %s' % (fn, tr.split('::')[-1], others), b.get('span'))
     ctx.floor('R2', n2, 32, 'forwarding trait methods on Box')
+    # ---- R8 the forwarding is complete: a provided trait method that std's Box overrides (because the boxed value may override it
+    # too) must be overridden here as well -- falling back to the trait's default reaches the value through a different entry
+    # point (Hasher::write_u128 -> write(bytes), Iterator::nth -> repeated next, PartialOrd::lt -> partial_cmp), so a value with its
+    # own override no longer hashes / iterates / compares as it does unboxed
+    REQUIRED = {
+        'hash::Hasher': ('finish', 'write', 'write_u8', 'write_u16', 'write_u32', 'write_u64', 'write_u128', 'write_usize', 'write_i8', 'write_i16', 'write_i32', 'write_i64', 'write_i128', 'write_isize'),
+        'iterator::Iterator': ('next', 'size_hint', 'nth', 'last'),
+        'double_ended::DoubleEndedIterator': ('next_back', 'nth_back'),
+        'exact_size::ExactSizeIterator': ('len',),
+        'cmp::PartialEq': ('eq', 'ne'),
+        'cmp::PartialOrd': ('partial_cmp', 'lt', 'le', 'gt', 'ge'),
+    }
+    have = {}
+    for b in db.fn_bodies():
+        m = b['meta']
+        if b['kind'] == 'assoc_fn' and (m.get('impl_adt') or '').endswith('boxed::Box') and m.get('impl_trait'):
+            have.setdefault(m['impl_trait'], set()).add(m['name'])
+    n8 = 0
+    for tr, names in REQUIRED.items():
+        got = set()
+        for k, v in have.items():
+            if k.endswith(tr):
+                got |= v
+        if not got:
+            ctx.anchor_missing('R8', 'impl %s for Box' % tr.split('::')[-1])
+            continue
+        for nm in names:
+            n8 += 1
+            if nm in got:
+                ctx.ok('R8', 'Box overrides %s::%s' % (tr.split('::')[-1], nm), 'impl inventory (the method body itself is R2)')
+            else:
+                ctx.violation('R8', 'Box', 'not-forwarded:%s::%s' % (tr.split('::')[-1], nm), 'impl %s for Box does not override %s: the default implementation reaches the boxed value through another method, so a value that overrides %s behaves differently once boxed' % (tr.split('::')[-1], nm, nm))
+    ctx.floor('R8', n8, 28, 'provided trait methods Box must override')
     # ---- R1 gating
     dc = [b for b in db.fn_bodies() if b['meta'].get('name') == 'downcast' and (b['meta'].get('impl_adt') or '').endswith('boxed::Box')]
     ctx.floor('R1.downcast', len(dc), 2, 'Box::downcast (dyn Any, dyn Any + Send)')
